@@ -6,10 +6,16 @@ package harness
 // query functions (AllianceModel/Query.lean) on the observed post-state and compares.
 
 import (
+	"encoding/json"
 	"fmt"
 	"sort"
 	"strings"
 
+	"cosmossdk.io/math"
+	banktypes "github.com/cosmos/cosmos-sdk/x/bank/types"
+
+	"github.com/terra-money/alliance/x/alliance/bindings"
+	bindingtypes "github.com/terra-money/alliance/x/alliance/bindings/types"
 	"github.com/terra-money/alliance/x/alliance/keeper"
 	"github.com/terra-money/alliance/x/alliance/types"
 )
@@ -53,6 +59,67 @@ func (e *Env) queryLines(st *Step) []string {
 			return
 		}
 		out = append(out, "Q "+q+" | "+ans)
+	}
+	// custom/bank: supply queries net of the alliance-bonded amount
+	for d, dn := range Denoms {
+		guard(fmt.Sprintf("supplyof %d", d), func() (string, error) {
+			r, err := e.App.BankKeeper.SupplyOf(cctx, &banktypes.QuerySupplyOfRequest{Denom: dn})
+			if err != nil {
+				return "", err
+			}
+			return r.Amount.Amount.String(), nil
+		})
+	}
+	guard("totalsupply", func() (string, error) {
+		r, err := e.App.BankKeeper.TotalSupply(cctx, &banktypes.QueryTotalSupplyRequest{})
+		if err != nil {
+			return "", err
+		}
+		var xs []string
+		for _, c := range r.Supply {
+			known := false
+			for _, dn := range Denoms {
+				known = known || dn == c.Denom
+			}
+			if known {
+				xs = append(xs, fmt.Sprintf("%d %s", denomID(c.Denom), c.Amount))
+			}
+		}
+		return rows(xs), nil
+	})
+	// contract bindings
+	kp := e.App.AllianceKeeper
+	querier := bindings.CustomQuerier(bindings.NewAllianceQueryPlugin(&kp))
+	for d := 0; d < 3; d++ {
+		a := post.Asset(d)
+		if a == nil {
+			continue
+		}
+		var resp bindingtypes.AllianceResponse
+		var qerr error
+		res, _ := protect(func() error {
+			req, _ := json.Marshal(bindingtypes.AllianceQuery{Alliance: &bindingtypes.Alliance{Denom: Denoms[d]}})
+			bz, err := querier(cctx, req)
+			if err != nil {
+				qerr = err
+				return err
+			}
+			return json.Unmarshal(bz, &resp)
+		})
+		if res != "ok" || qerr != nil {
+			st.pfail("C20", "binding_alliance", "binding alliance query of denom %d fails: %s %v", d, res, qerr)
+			continue
+		}
+		raw := func(x string) string { return math.LegacyMustNewDecFromStr(x).BigInt().String() }
+		if raw(resp.RewardWeight) != a.W.String() || raw(resp.TakeRate) != a.TR.String() || resp.TotalTokens != a.T.String() ||
+			raw(resp.TotalValidatorShares) != a.S.String() || raw(resp.RewardChangeRate) != a.Rate.String() ||
+			raw(resp.RewardWeightRange.Min) != a.Min.String() || raw(resp.RewardWeightRange.Max) != a.Max.String() || resp.IsInitialized != a.Init {
+			st.pfail("C20", "binding_alliance", "binding alliance query of denom %d reports %+v, record is %+v", d, resp, *a)
+		}
+		if fmt.Sprint(resp.RewardStartTime) != a.Start.String() || fmt.Sprint(resp.LastRewardChangeTime) != a.Last.String() {
+			st.pfail("C20", "binding_time_truncated", "binding alliance query of denom %d reports start %d / last change %d, record has %s / %s",
+				d, resp.RewardStartTime, resp.LastRewardChangeTime, a.Start, a.Last)
+		}
 	}
 	for ui := range e.Users {
 		u := AccUserBase + ui
@@ -106,6 +173,18 @@ func (e *Env) queryLines(st *Step) []string {
 						return "", err
 					}
 					return fmt.Sprintf("%s %s", r.Delegation.Delegation.Shares.BigInt(), r.Delegation.Balance.Amount), nil
+				})
+				guard(fmt.Sprintf("bdel %d %d %d", u, v, d), func() (string, error) {
+					req, _ := json.Marshal(bindingtypes.AllianceQuery{Delegation: &bindingtypes.Delegation{Denom: Denoms[d], Delegator: addr, Validator: e.Vals[v].String()}})
+					bz, err := querier(cctx, req)
+					if err != nil {
+						return "", err
+					}
+					var resp bindingtypes.DelegationResponse
+					if err := json.Unmarshal(bz, &resp); err != nil {
+						return "", err
+					}
+					return resp.Amount, nil
 				})
 			}
 		}
